@@ -8,7 +8,7 @@ has both, the two starting families.  The core's slices are [r0 .. rc] followed 
 (rc = 1.05 max r0), so the radial functions can be compared slice by slice above rc; in a uniform core g is
 linear in r, so the solver's piecewise-linear model is identical for every r0.  DOP853, base rtol 1e-9 and tight
 rtol 1e-11; delta = max|love_base - love_tight|.  Oracle: tight Love numbers of the runs agree to
-1e-7 + delta_a + delta_b; rows at the layer-boundary slices above rc (see the comment in _evaluate_solver for why not
+1e-6 + 3 (delta_a + delta_b); rows at the layer-boundary slices above rc (see the comment in _evaluate_solver for why not
 interior slices) agree to 1e-6 max|row| + 10 |row_base - row_tight|.  Failed / unconverged
 (delta > 1e-5) runs are discarded.
 
@@ -61,7 +61,7 @@ RULE = ('Hypothesis draws either a solver-level case (core kind, 0-2 solid layer
         'r0/R in [-4,-0.3], material parameters) or a vector-level case (layer kind, family, l 2..10, radius, rho, complex mu, K, '
         'frequency with |x^2| on both sides of cf_z_calc\'s 0.1 switch). Non-trivial = solver case with both runs converged and '
         'r0b/r0a > 2, or any evaluated vector case; distinct = argument hash.')
-ASSUMPTIONS = ['TS72 matrix in oracles/ts72.py', 'FD step 1e-3, tolerance 1e-6 relative row-wise', 'solver tolerance 1e-7 + delta']
+ASSUMPTIONS = ['TS72 matrix in oracles/ts72.py', 'FD step 1e-3, tolerance 1e-6 relative row-wise', 'solver tolerance 1e-6 + 3(delta_a + delta_b)']
 G = rc.G
 VEC_TOL = 1e-6
 Z_LIMIT = 3.0
@@ -245,7 +245,13 @@ def _evaluate_vector(case):
     if fam_eff == 'takeuchi':
         regime = 'large_z' if takeuchi_zmax(typ, static, l, r, rho, mu, K, w) > Z_LIMIT else 'small_z'
         labels.append('takeuchi:' + regime)
-    h = 1e-3
+    # finite-difference step: 1e-3 in r/r, reduced when the argument x = sqrt|k^2| r of the Bessel ratio is large (the
+    # vectors oscillate with x); beyond x = 30 the ratio x j_{l+1}(x)/j_l(x) has closely spaced poles and a finite
+    # difference cannot decide the case (discarded, counted)
+    xmax = max(zs) ** 0.5 if zs else 0.0
+    if xmax > 30.0:
+        return discard('bessel_argument_too_large_for_fd', labels)
+    h = 1e-3 / max(1.0, xmax)
     with repo_call('find_starting_conditions'):
         ys = {s: _start(kind, fam_eff, w, r * (1.0 + s * h), rho, K, mu, l) for s in (-2, -1, 0, 1, 2)}
     y0 = ys[0]
@@ -367,7 +373,7 @@ def _evaluate_solver(case):
         r0_class = 'small_r0' if r0t <= 0.03 else 'large_r0'
         labels.append('takeuchi:' + regime)
     c = Collector(labels + ['family:' + f for _, f in runs], nontrivial=(runs[0][1] != runs[1][1]) or max(r0a, r0b) / min(r0a, r0b) > 2)
-    tol = 1e-7 + res[0]['delta'] + res[1]['delta']
+    tol = 1e-6 + 3.0 * (res[0]['delta'] + res[1]['delta'])
     d = float(np.max(np.abs(res[0]['love'] - res[1]['love'])))
     core_layer = 'solid' if typ == 'solid' else 'liquid'
     c.check(d <= tol, {'level': 'solver', 'family': fam_sig, 'core': core_layer, 'what': 'love', 'regime': regime, 'r0': r0_class},
